@@ -112,6 +112,9 @@ static void rtSongBegin(void *userdata)
         ch.bank_msb = 0;
         ch.is_xg_percussion = false;
     }
+    // ... and with every track on the first output port
+    // (a device name met later in the song selects another one)
+    context->realTime_resetDevices();
 }
 /* NonStandard calls End */
 
